@@ -377,6 +377,9 @@ func c08Tree(run *ev.Run, j treeJob, k int) {
 			run.Count("compared:queries", 1)
 			if ca != cb {
 				jt := jqType(jv)
+				if canon(jv) == "-9223372036854775808" {
+					jt += ":minint64" // the one value whose negation overflows the engine's native int
+				}
 				run.Violation("query:"+q.Name+":"+strings.SplitN(kd, "+", 2)[0]+":"+jt, fmt.Sprintf("%s: value %s (%s, JSON value %s): `%s` on the decode value gives %s, on its JSON value %s", j.Label, jqPathExpr(p.Path), kd, trunc(canon(jv), 120), q.Q, trunc(canon(a), 300), trunc(canon(b), 300)), map[string]any{"case": j.Label, "path": jqPathExpr(p.Path), "query": q.Q})
 			}
 		}
